@@ -1054,6 +1054,9 @@ func (s *Session) CrashTrace() string {
 			if strings.HasPrefix(op.Label, "commit-start ") {
 				fmt.Sscanf(op.Label, "commit-start %d", &cur)
 			}
+			if op.Label == "acceptor-stop" {
+				return sb.String()
+			}
 		case simdisk.OpSync:
 			if created {
 				sb.WriteString("s\n")
